@@ -81,4 +81,26 @@ theorem ex_complete : ∃ r v, addContentE Driver.Parse.tables (envOf doc2) "2" 
     exact C03Complete.wellformed_accepted (envOf doc2) "2" doc2 (envOf_ok doc2) _ hc hd
   | _ => cases h
 
+set_option maxRecDepth 1000000 in
+/-- `doc1` comes back with a tree … -/
+theorem ex_tree :
+    (match addContentE Driver.Parse.tables (envOf doc1) "1" doc1 with
+     | .ok r => r.ast.isSome
+     | .error _ => false) = true := by decide +kernel
+
+/-- … and the whole pipeline theorems apply to it: it validates (any hash order, here the identity, empty
+    project) and the C05 / C08 oracles hold of the outcome — with no hypothesis evaluated -/
+theorem ex_pipeline : ∃ fr out, addContentE Driver.Parse.tables (envOf doc1) "1" doc1 = .ok fr
+    ∧ fr.ast.isSome = true
+    ∧ validateFile HashOrder.id [] fr = .ok out
+    ∧ Spec.C05.holdsFile [] fr out = true ∧ Spec.C08.holdsFile out = true := by
+  obtain ⟨fr, hfr⟩ := PipelineTotal.every_text_has_a_result (envOf doc1) "1" doc1 (envOf_ok doc1)
+  have ht := ex_tree
+  rw [hfr] at ht
+  obtain ⟨out, hout⟩ := C01.validateFile_ok HashOrder.id [] fr
+    (fun a ha => PipelineTotal.itemWF_arityOK a (ParseTyped.tree_arities (envOf doc1) "1" doc1 (envOf_ok doc1) fr a hfr ha))
+  exact ⟨fr, out, hfr, ht, hout,
+    PipelineTotal.C05_holds_of_parsed HashOrder.id [] fr out ⟨_, _, _, envOf_ok doc1, hfr⟩ hout,
+    PipelineTotal.C08_holds_of_parsed HashOrder.id [] fr out ⟨_, _, _, envOf_ok doc1, hfr⟩ hout⟩
+
 end Aidl.Props.Examples
